@@ -69,14 +69,13 @@ def forms_for(t, v, want):
             if xt.py_expressible(t, v):
                 out.append(f)
         elif f in ND:
-            if has_sa and xt.nd_ok(t, v, f) and (xt.py_expressible(t, v) or t[0] == "A" and t[1][0] == "S"):
+            if has_sa and xt.nd_ok(t, v, f) or (f == "nd" and not xt.py_expressible(t, v)):
                 out.append(f)
         elif f == "xobj-nested":
             if t[0] in ("St", "A") and (t[0] == "St" and any(ft[0] in ("St", "A", "Str") for _, ft in t[1]) or t[0] == "A" and t[1][0] in ("St", "A", "Str")) and xt.py_expressible(t, v):
                 out.append(f)
         elif f in XOBJ:
-            if xt.py_expressible(t, v) or has_sa and t[0] == "A" and t[1][0] == "S":
-                out.append(f)
+            out.append(f)
         elif f == "cap":
             if has_str and xt.py_expressible(t, v):
                 out.append(f)
